@@ -127,6 +127,32 @@ pub struct Env {
 }
 
 impl Env {
+    /// true when bytes were accepted by a write call and no flush call answered Ok after it: a sink that commits on flush
+    /// (BufWriter, LineWriter, a transactional store) would not hold them yet
+    /// true when bytes were accepted by a write call and flush was not even CALLED after it (whatever the sink answered)
+    pub fn never_flushed_tail(&self) -> bool {
+        let mut pending = false;
+        for ev in &self.log {
+            match ev {
+                Ev::Write { ans: Ans::N(n), .. } if *n > 0 => pending = true,
+                Ev::Flush { .. } => pending = false,
+                _ => {}
+            }
+        }
+        pending
+    }
+    pub fn unflushed(&self) -> bool {
+        let mut pending = false;
+        for ev in &self.log {
+            match ev {
+                Ev::Write { ans: Ans::N(n), .. } if *n > 0 => pending = true,
+                Ev::Flush { ans: Ans::N(_), .. } => pending = false,
+                _ => {}
+            }
+        }
+        pending
+    }
+
     pub fn new(src: Vec<u8>, menu: Menu, prefix: &[u16]) -> Env {
         Env {
             menu,
